@@ -67,6 +67,7 @@ TRANSLATORS = [
     ('translate_de.py', 'DeTables', 'de', 'Proofs/DeSrc.v'),
     ('translate_read.py', 'ReadTables', 'read', 'Proofs/ReadSrc.v'),
     ('translate_esc.py', 'EscTables', 'esc', 'Proofs/EscSrc.v'),
+    ('translate_strscan.py', 'StrScanTables', 'strscan', 'Proofs/StrScanSrc.v'),
 ]
 TRANSLATORS = [t for t in TRANSLATORS if os.path.exists(os.path.join(VERIF, 'tools', t[0]))]
 
